@@ -357,9 +357,13 @@ def s4_entry(ctx):
                 'the asset list is refreshed from the universe at dt', uni[0].site if uni else fn.site(), key='C16.S4|universe')
     loops = [e for e in p.events if e.kind == 'loop']
     apps = [(e, l) for e, l, c in nested_events(p) if e.kind == 'write' and e.how == 'mut:append' and loc_attr(e.loc) == 'assets']
-    if uni and len(loops) == 1 and len(apps) == 1:
+    exts = [e for e in p.flat_events() if e.kind == 'write' and e.how == 'mut:extend' and loc_attr(e.loc) == 'assets']
+    bulk = uni and not loops and not apps and len(exts) == 1 and exts[0].value[0] == 'call' and len(exts[0].value[2]) == 2
+    if (uni and len(loops) == 1 and len(apps) == 1) or bulk:
         u = uni[0].result
-        it = loops[0].iter
+        # L.extend(X) appends every element of X once, in order: the same as the loop `for a in X: L.append(a)`
+        it = exts[0].value[2][1] if bulk else loops[0].iter
+        site0 = exts[0].site if bulk else loops[0].site
         mine = A('self', 'assets')
         setd = T.t_sub(('call', ('ext', 'SET'), (u,), ()), ('call', ('ext', 'SET'), (mine,), ()))
         forms = [('call', ('ext', 'LIST'), (setd,), ()), setd, ('call', ('ext', 'SORTED'), (setd,), ()),
@@ -370,15 +374,18 @@ def s4_entry(ctx):
             good = cnd == ('not', ('cmp', 'in', it[3][0][0][0], mine)) and it[2] == it[3][0][0][0]
         positional = any(s[0] == 'slice' or (s[0] == 'call' and s[1] == ('ext', 'LEN')) for s in T.subterms(it))
         if good:
-            ctx.holds('C16.S4', 'exactly the universe members not yet tracked are added (membership decided per asset)', loops[0].site)
+            ctx.holds('C16.S4', 'exactly the universe members not yet tracked are added (membership decided per asset)', site0)
         elif positional:
-            ctx.violation('C16.S4', 'exactly the universe members not yet tracked are added (membership decided per asset)', loops[0].site,
+            ctx.violation('C16.S4', 'exactly the universe members not yet tracked are added (membership decided per asset)', site0,
                           'new assets are selected by position (%s): wrong whenever entry order differs from the universe\'s listing order' % fmt(it)[:120], key='C16.S4|membership')
         else:
-            ctx.undecided('C16.S4', 'new-asset selection is one of the tabled idioms (set difference / not-in filter)', loops[0].site, fmt(it)[:160])
-        e, l = apps[0]
-        ok = len(l) == 1 and e.value[2][1:] == (('elem', loops[0].iter, loops[0].id),) and all(b.outcome == 'fall' and not b.conds for b in loops[0].paths)
-        ctx.require(ok, 'C16.S4', 'every new member is appended once', e.site, key='C16.S4|append')
+            ctx.undecided('C16.S4', 'new-asset selection is one of the tabled idioms (set difference / not-in filter)', site0, fmt(it)[:160])
+        if bulk:
+            ctx.holds('C16.S4', 'every new member is appended once (list.extend)', site0)
+        else:
+            e, l = apps[0]
+            ok = len(l) == 1 and e.value[2][1:] == (('elem', loops[0].iter, loops[0].id),) and all(b.outcome == 'fall' and not b.conds for b in loops[0].paths)
+            ctx.require(ok, 'C16.S4', 'every new member is appended once', e.site, key='C16.S4|append')
     else:
         ctx.undecided('C16.S4', 'update_assets = one universe query, one loop, one append', fn.site(), '%d queries, %d loops, %d appends' % (len(uni), len(loops), len(apps)))
     # the tracked list may be shared with collaborators (the buffers are constructed on the very same list object): an append through any alias counts
